@@ -586,6 +586,77 @@ def size_window() -> dict:
     return {"evals": evals, "writes": sorted(writes), "calls": sorted(calls)}
 
 
+# ------------------------------------------------------------------------------------------------- round 6: the reset path
+EXPECTED_RESET_PATH = [
+    ("PrimaiteGame.pre_timestep", ["self.simulation.pre_timestep(self.step_counter)"]),
+    ("Simulation.pre_timestep", ["super", "self.network.pre_timestep(timestep)"]),
+    ("Network.pre_timestep", ["super", "self.airspace.reset_bandwidth_load()", "every node: pre_timestep (unconditional)",
+                              "every link: pre_timestep (unconditional)"]),
+    ("Link.pre_timestep", ["super", "self.current_load = 0.0"]),
+    ("AirSpace.reset_bandwidth_load", ["self.bandwidth_load = {}"]),
+    ("Network.connect", ["registers the link in self.links"]),
+]
+
+
+def _reset_steps(fn: ast.FunctionDef) -> List[str]:
+    out = []
+    for st in _body(fn):
+        src = _u(st)
+        if src.startswith("super().pre_timestep("):
+            out.append("super")
+        elif (isinstance(st, ast.For) and not st.orelse and isinstance(st.target, ast.Name)
+              and _u(st.iter) in ("self.nodes.values()", "self.links.values()")):
+            what = "node" if "nodes" in _u(st.iter) else "link"
+            body = [_u(x) for x in st.body]
+            if body == [f"{st.target.id}.pre_timestep(timestep)"]:
+                out.append(f"every {what}: pre_timestep (unconditional)")
+            else:
+                out.append(f"every {what}: " + " ; ".join(b.replace("\n", " ") for b in body))
+        else:
+            out.append(src.replace("\n", " "))
+    return out
+
+
+def tick_reset_path() -> List[tuple]:
+    game = class_def(parse("game/game.py"), "PrimaiteGame")
+    sim = class_def(parse("simulator/sim_container.py"), "Simulation")
+    net = class_def(parse(CONTAINER), "Network")
+    link = class_def(parse(BASE), "Link")
+    air = class_def(parse(AIR), "AirSpace")
+    return [("PrimaiteGame.pre_timestep", _reset_steps(find_method(game, "pre_timestep"))),
+            ("Simulation.pre_timestep", _reset_steps(find_method(sim, "pre_timestep"))),
+            ("Network.pre_timestep", _reset_steps(find_method(net, "pre_timestep"))),
+            ("Link.pre_timestep", _reset_steps(find_method(link, "pre_timestep"))),
+            ("AirSpace.reset_bandwidth_load", _reset_steps(find_method(air, "reset_bandwidth_load"))),
+            ("Network.connect", ["registers the link in self.links" if any(_u(x) == "self.links[link.uuid] = link"
+                                                                            for x in ast.walk(find_method(net, "connect")) if isinstance(x, ast.Assign))
+                                 else "does NOT register the link in self.links"])]
+
+
+def link_construction_sites() -> List[str]:
+    out = set()
+    for rel in _py_files(""):
+        tree = parse(rel)
+        where = _enclosing(tree)
+        for n in ast.walk(tree):
+            if isinstance(n, ast.Call) and _u(n.func).split(".")[-1] == "Link":
+                out.add(_site(rel, where[n]))
+    return sorted(out)
+
+
+def airspace_argument_sites() -> List[str]:
+    out = set()
+    for rel in _py_files(""):
+        tree = parse(rel)
+        where = _enclosing(tree)
+        for n in ast.walk(tree):
+            if isinstance(n, ast.Call):
+                for kw in n.keywords:
+                    if kw.arg == "airspace":
+                        out.add(f"{_site(rel, where[n])}:airspace={_u(kw.value)}")
+    return sorted(out)
+
+
 def lst(xs: List[str]) -> str:
     return "[" + ", ".join(f'"{x}"' for x in xs) + "]"
 
@@ -603,17 +674,9 @@ def emit() -> str:
     sw = _send_order(find_method(class_def(parse(SWITCH), "SwitchPort"), "send_frame"), "SwitchPort")
     wl = _send_order(find_method(class_def(air_t, "WirelessNetworkInterface"), "send_frame"), "WirelessNetworkInterface")
     atx = _air_transmit(air)
-    # per-tick reset
-    pre = [_u(s) for s in _body(find_method(link, "pre_timestep"))]
-    if "self.current_load = 0.0" not in pre:
-        raise ValueError("Link.pre_timestep does not reset current_load to 0.0")
-    rb = [_u(s) for s in _body(find_method(air, "reset_bandwidth_load"))]
-    if rb != ["self.bandwidth_load = {}"]:
-        raise ValueError("AirSpace.reset_bandwidth_load does not clear bandwidth_load")
-    npre = find_method(class_def(parse(CONTAINER), "Network"), "pre_timestep")
-    nsrc = [_u(s) for s in _body(npre)]
-    if "self.airspace.reset_bandwidth_load()" not in nsrc or "for link in self.links.values():\n    link.pre_timestep(timestep)" not in nsrc:
-        raise ValueError("Network.pre_timestep does not reset the airspace and every link")
+    # per-tick reset: NAMED step by step (round 6) instead of raised, so that exactly `C18_gen_tick_reset_path` / `C18_gen_flags` fail
+    reset_path = tick_reset_path()
+    tick_resets = reset_path == EXPECTED_RESET_PATH
     # endpoint_down
     ed = _body(find_method(link, "endpoint_down"))
     if not (len(ed) == 1 and isinstance(ed[0], ast.If) and _u(ed[0].test) == "not self.is_up" and not ed[0].orelse):
@@ -669,7 +732,16 @@ def wiredSendOrder : List String := {lst(wired)}
 def switchSendOrder : List String := {lst(sw)}
 def wirelessSendOrder : List String := {lst(wl)}
 /-- `Link.pre_timestep` sets `current_load = 0.0`; `Network.pre_timestep` calls it for every link and clears the airspace loads -/
-def tickResetsEveryLoad : Bool := true
+def tickResetsEveryLoad : Bool := {"true" if tick_resets else "false"}
+/-- the reset path of a tick boundary, statement by statement: `PrimaiteGame.pre_timestep`, `Simulation.pre_timestep`,
+`Network.pre_timestep` (a loop is `unconditional` when its body is exactly the one call), `Link.pre_timestep`,
+`AirSpace.reset_bandwidth_load` -/
+def tickResetPath : List (String × List String) := [{", ".join(f'("{n}", {lst(st)})' for n, st in reset_path)}]
+/-- every place in src/primaite that constructs a `Link` (a link that is not made by `Network.connect` is not in `Network.links` and
+would never be reset) and every place that passes an `airspace=` argument (a wireless node built on another AirSpace than its
+network's would never be reset) -/
+def linkConstructionSites : List String := {lst(link_construction_sites())}
+def airspaceArgumentSites : List String := {lst(airspace_argument_sites())}
 /-- `WiredNetworkInterface.disable` clears the flag, then calls `Link.endpoint_down`; does that assign `current_load = 0.0`?
 (no other method than `transmit_frame` and `pre_timestep` writes `current_load`: enforced by the extractor) -/
 def disableClearsLoad : Bool := {"true" if disable_clears else "false"}
